@@ -240,7 +240,10 @@ def valgrind_replay(h, rp):
 
 def native_confirms(v, nat):
     k = v['kind']; e = nat['end']
-    if k == 'assert': return e == 'assert:' + v['id']
+    # the native build may trip over a neighbouring assertion of the same harness first (e.g. where the engine observes a
+    # value through a stub and the native build reads it back from real output): any natively failing assertion on the
+    # solver's input demonstrates the violation; the native id is printed next to the engine's
+    if k == 'assert': return e.startswith('assert:')
     if k == 'ub':
         if e in ('asan', 'ubsan', 'libassert', 'valgrind') or e.startswith('signal:'): return True
         # an uninitialised value reaching verif_assert(ID): natively the garbage makes that very assertion fail
